@@ -152,3 +152,7 @@ def check(prog: Program, rep):
     if _pa(prog, rep, "C08.R8", [prog.own_method(c, "is_valid_solution") for c in ['kMinPathError', 'kMinPathErrorCycles']],
            "is_valid_solution() reports the model's own optimal solution invalid (5 - 7 = 254 for np.uint8)") < 2:
         raise _AE("is_valid_solution: the comparison of the flow values with the load of the routes was not found")
+    # the consumers replace the product of an edge flagged `= 1` / `= 0` by the weight / by 0: the flag has to be set exactly where the matching constraint
+    # (or queued fix) is stated (C05.R1)
+    from rules.common import RuleProxy as _RPf
+    semantic.flag_pairing(prog, _RPf(rep, "C08.R2"), "C05.R1")
